@@ -3410,10 +3410,15 @@ bool ts_query__step_is_fallible(
     next_step = array_get(&self->steps, step_index + i);
     i++;
   } while (next_step->is_pass_through);
+  if (next_step->depth == PATTERN_DONE_MARKER) return false;
+
+  // An anchored sibling must be the very next node. The analysis only establishes that the
+  // sibling occurs eventually (extras may come in between), so this node may be the wrong
+  // candidate even if the rest of the parent pattern is guaranteed.
+  if (next_step->depth == step->depth && next_step->is_immediate) return true;
+
   return (
-    next_step->depth != PATTERN_DONE_MARKER &&
-    (next_step->depth > step->depth ||
-        (next_step->depth == step->depth && next_step->is_immediate)) &&
+    next_step->depth > step->depth &&
     (!next_step->parent_pattern_guaranteed || step->symbol == WILDCARD_SYMBOL)
   );
 }
